@@ -160,4 +160,30 @@ CHECKS["C04"] = {
     "engine": "tlc+vh",
 }
 
+CHECKS["C01"] = {
+    "category": "exploration",
+    "text": "spec/Builtin.tla describes every built-in impl by a wire descriptor written from its documentation (TypeTable: ~110 named "
+            "instantiations) and gives the reference encoding EncV of a generic value tree. TLC emits reference encodings of boundary values, "
+            "which the real code must decode to exactly that value, re-encode identically and size correctly; recorded round trips of "
+            "boundary-first random values of every instantiation are validated by TLC (bytes = reference encoding, decode = value, exact "
+            "consumption), as are re-framed encodings of the same item.",
+    "design_ref": "DESIGN.md section 6, C01",
+    "note": "Exploration-grade: universal over each value space only by boundaries and sampling; compositions beyond the listed instantiations "
+            "are not compiled. The harness projection is structural (no CBOR knowledge).",
+    "technique": "TLA+ reference semantics of the built-in impls (Builtin) + TLC case emission and replay + trace validation of sampled round trips",
+    "engine": "tlc+vh",
+}
+
+CHECKS["C07"] = {
+    "category": "exploration",
+    "text": "For every built-in instantiation (spec/Builtin.tla TypeTable) and every Token variant the harness records the bytes the Encode impl "
+            "writes and the length the CborLen impl computes; TLC requires them to agree for every recorded value (trace spec Trace_Typed, "
+            "conjunct `len`) and, for the replayed reference encodings of MC_C01, that the computed length equals the length of the reference "
+            "encoding. Derived CborLen impls are covered through the derive harness (see the stage list of the evidence file).",
+    "design_ref": "DESIGN.md section 6, C07 and section 7 (F3, F5, F8)",
+    "note": "Exploration-grade: boundary-first sampling per instantiation. Fixed on the way: Token::cbor_len for F16 and Bytes.",
+    "technique": "TLA+ reference encodings (Builtin/Token) + trace validation of (bytes written, length computed) pairs + replay of TLC-emitted cases",
+    "engine": "tlc+vh",
+}
+
 NOT_YET = "check not built yet in this round (planned in DESIGN.md section 10); not claimed until it exists"
